@@ -149,11 +149,17 @@ class UniformQuantParams:
     else:
       raise ValueError(f'Unsupported data type: {data_type}')
     symmetric = sum(abs(quant_params['zero_points'])) == 0
+    scales = quant_params['scales']
+    zero_points = quant_params['zero_points']
+    # A hybrid kernel may expand the per-tensor scale of its weight to one
+    # scale per channel at run time while keeping the single zero point.
+    if len(zero_points) == 1 and len(scales) > 1:
+      zero_points = np.repeat(zero_points, len(scales))
     return cls(
         quantized_dimension=quant_params['quantized_dimension'],
         num_bits=num_bits,
-        scale=quant_params['scales'],
-        zero_point=quant_params['zero_points'],
+        scale=scales,
+        zero_point=zero_points,
         symmetric=symmetric,
     )
 
